@@ -12,6 +12,7 @@ package main
 import (
 	"fmt"
 	"go/ast"
+	"go/build"
 	"go/constant"
 	"go/parser"
 	"go/token"
@@ -25,22 +26,35 @@ import (
 // ---------------------------------------------------------------- whitelist
 
 type entry struct {
-	file string // relative to the repository root
-	name string // function name (no receiver)
+	file    string            // relative to the repository root
+	name    string            // function or method name
+	recv    string            // receiver type name for a method ("" = function); the Gallina name is <recv>_<name>
+	externs map[string]extern // functions the body calls that are NOT translated (I/O): they become leading parameters
+}
+
+// an external function: the translated function is parametric in it
+type extern struct {
+	params []Ty
+	res    []Ty
 }
 
 // callees before callers
 var whitelist = []entry{
-	{"validator.go", "min"},
-	{"validator.go", "ComparePath"},
-	{"stat_unix.go", "major"},
-	{"stat_unix.go", "minor"},
-	{"filter.go", "patternWithoutTrailingGlob"},
-	{"diff_containerd.go", "compareStat"},
-	{"send.go", "fileCanRequestData"},
-	{"followlinks.go", "containsWildcards"},
-	{"followlinks.go", "dedupePaths"},
-	{"stat_unix.go", "skipXattr"},
+	{file: "validator.go", name: "min"},
+	{file: "validator.go", name: "ComparePath"},
+	{file: "stat_unix.go", name: "major"},
+	{file: "stat_unix.go", name: "minor"},
+	{file: "filter.go", name: "patternWithoutTrailingGlob"},
+	{file: "diff_containerd.go", name: "compareStat"},
+	{file: "send.go", name: "fileCanRequestData"},
+	{file: "followlinks.go", name: "containsWildcards"},
+	{file: "followlinks.go", name: "dedupePaths"},
+	{file: "stat_unix.go", name: "skipXattr"},
+	{file: "types/stat.go", name: "IsDir", recv: "Stat"},
+	{file: "diff_containerd.go", name: "sameFile", externs: map[string]extern{
+		// reads both files: the result of sameFile is stated for every behaviour of this function
+		"compareFileContent": {params: []Ty{{k: kString}, {k: kString}}, res: []Ty{{k: kBool}, {k: kError}}},
+	}},
 }
 
 // ---------------------------------------------------------------- types
@@ -60,14 +74,18 @@ const (
 	kPattern       // *patternmatcher.Pattern -> list N (its String())
 	kUntyped       // untyped integer constant
 	kNil           // the identifier nil
+	kStruct        // *T, T a struct type of the package whose fields are all in the subset -> a generated Record
 )
 
 type Ty struct {
 	k    kind
 	bits int
+	name string // kStruct: the struct's name; otherwise advisory (the named type, e.g. os.FileMode, DiffType)
 }
 
-func (t Ty) eq(u Ty) bool { return t.k == u.k && t.bits == u.bits }
+func (t Ty) eq(u Ty) bool {
+	return t.k == u.k && t.bits == u.bits && (t.k != kStruct || t.name == u.name)
+}
 
 func (t Ty) coq() string {
 	switch t.k {
@@ -85,6 +103,8 @@ func (t Ty) coq() string {
 		return "Prims.error"
 	case kStat:
 		return "Stat.stat"
+	case kStruct:
+		return ident(t.name)
 	}
 	return "?"
 }
@@ -113,6 +133,8 @@ func (t Ty) String() string {
 		return "untyped constant"
 	case kNil:
 		return "nil"
+	case kStruct:
+		return "*" + t.name
 	}
 	return "invalid"
 }
@@ -122,9 +144,9 @@ var statFields = map[string]struct {
 	ty  Ty
 }{
 	"Path":     {"Stat.st_path", Ty{k: kString}},
-	"Mode":     {"Stat.st_mode", Ty{kUint, 32}},
-	"Uid":      {"Stat.st_uid", Ty{kUint, 32}},
-	"Gid":      {"Stat.st_gid", Ty{kUint, 32}},
+	"Mode":     {"Stat.st_mode", Ty{k: kUint, bits: 32}},
+	"Uid":      {"Stat.st_uid", Ty{k: kUint, bits: 32}},
+	"Gid":      {"Stat.st_gid", Ty{k: kUint, bits: 32}},
 	"Size":     {"Stat.st_size", Ty{k: kI64}},
 	"ModTime":  {"Stat.st_mtime", Ty{k: kI64}},
 	"Linkname": {"Stat.st_linkname", Ty{k: kString}},
@@ -139,9 +161,9 @@ var stdConsts = map[string]struct {
 	ty  Ty // kUntyped or a typed constant
 }{
 	"filepath.Separator": {"Prims.filepath_Separator", 47, Ty{k: kUntyped}},
-	"os.ModeType":        {"Prims.os_ModeType", 2401763328, Ty{kUint, 32}},
-	"os.ModeDir":         {"Prims.os_ModeDir", 2147483648, Ty{kUint, 32}},
-	"os.ModeSymlink":     {"Prims.os_ModeSymlink", 134217728, Ty{kUint, 32}},
+	"os.ModeType":        {"Prims.os_ModeType", 2401763328, Ty{k: kUint, bits: 32}},
+	"os.ModeDir":         {"Prims.os_ModeDir", 2147483648, Ty{k: kUint, bits: 32}},
+	"os.ModeSymlink":     {"Prims.os_ModeSymlink", 134217728, Ty{k: kUint, bits: 32}},
 }
 
 var stdStrings = map[string]string{
@@ -244,14 +266,146 @@ type funcSig struct {
 }
 
 type tr struct {
-	fset   *token.FileSet
-	funcs  map[string]*funcSig // translated so far, by Go name
-	consts map[string]ast.Expr // untyped package-level constants of the current file: name -> defining expression
+	fset  *token.FileSet
+	funcs map[string]*funcSig // translated so far, by Go name
+	pkgs  map[string]*pkgInfo // by directory
+	pkg   *pkgInfo            // package of the function being translated
+	iota  int                 // value of iota while a constant's defining expression is translated (-1 otherwise)
+	// records emitted so far (struct types used by translated functions)
+	records    map[string]bool
+	recordDefs []string
+	externs    map[string]extern
 	// per function
 	cur    *funcSig
 	goName string
 	aux    []string // Fixpoints emitted for loops
 	nloop  int
+}
+
+// what the translator reads of a package besides the whitelisted functions: named basic types,
+// struct types and constants (including iota groups), of the files that build on linux/amd64
+type constDef struct {
+	expr ast.Expr // defining expression (may mention iota)
+	typ  ast.Expr // declared type or nil
+	iota int
+}
+
+type pkgInfo struct {
+	name    string
+	named   map[string]ast.Expr // type X <ident>
+	structs map[string]*ast.StructType
+	consts  map[string]constDef
+}
+
+func (t *tr) scanPkg(dir string) *pkgInfo {
+	if p, ok := t.pkgs[dir]; ok {
+		return p
+	}
+	p := &pkgInfo{named: map[string]ast.Expr{}, structs: map[string]*ast.StructType{}, consts: map[string]constDef{}}
+	t.pkgs[dir] = p
+	ents, _ := os.ReadDir(dir)
+	bctx := build.Default
+	bctx.GOOS, bctx.GOARCH, bctx.CgoEnabled = "linux", "amd64", false
+	for _, e := range ents {
+		n := e.Name()
+		if e.IsDir() || !strings.HasSuffix(n, ".go") || strings.HasSuffix(n, "_test.go") {
+			continue
+		}
+		if ok, err := bctx.MatchFile(dir, n); err != nil || !ok {
+			continue
+		}
+		f, err := parser.ParseFile(t.fset, filepath.Join(dir, n), nil, parser.SkipObjectResolution)
+		if err != nil {
+			continue
+		}
+		p.name = f.Name.Name
+		for _, d := range f.Decls {
+			g, ok := d.(*ast.GenDecl)
+			if !ok {
+				continue
+			}
+			switch g.Tok {
+			case token.TYPE:
+				for _, sp := range g.Specs {
+					ts := sp.(*ast.TypeSpec)
+					if ts.TypeParams != nil || ts.Assign != token.NoPos {
+						continue
+					}
+					switch x := ts.Type.(type) {
+					case *ast.Ident:
+						p.named[ts.Name.Name] = x
+					case *ast.StructType:
+						p.structs[ts.Name.Name] = x
+					}
+				}
+			case token.CONST:
+				var cur constDef
+				for i, sp := range g.Specs {
+					vs := sp.(*ast.ValueSpec)
+					if len(vs.Values) > 0 {
+						if len(vs.Values) != len(vs.Names) {
+							cur = constDef{}
+							continue
+						}
+						for j, n := range vs.Names {
+							p.consts[n.Name] = constDef{vs.Values[j], vs.Type, i}
+						}
+						if len(vs.Names) == 1 {
+							cur = constDef{vs.Values[0], vs.Type, i}
+						} else {
+							cur = constDef{}
+						}
+						continue
+					}
+					// implicit repetition of the previous expression (iota groups)
+					if cur.expr != nil && len(vs.Names) == 1 {
+						p.consts[vs.Names[0].Name] = constDef{cur.expr, cur.typ, i}
+					}
+				}
+			}
+		}
+	}
+	return p
+}
+
+// record makes sure the Record for struct type name has been emitted
+func (t *tr) record(n ast.Node, name string) error {
+	if t.records[name] {
+		return nil
+	}
+	st := t.pkg.structs[name]
+	var fields []string
+	for _, f := range st.Fields.List {
+		ty, err := t.typeOf(f.Type)
+		if err != nil {
+			return bad(n, "struct %s has a field outside the subset", name)
+		}
+		if len(f.Names) == 0 {
+			return bad(n, "struct %s has an embedded field", name)
+		}
+		for _, fn := range f.Names {
+			fields = append(fields, fmt.Sprintf("%s_%s : %s", name, fn.Name, ty.coq()))
+		}
+	}
+	t.records[name] = true
+	t.recordDefs = append(t.recordDefs, fmt.Sprintf("(* struct %s (used through a pointer; nil is not modelled) *)\nRecord %s := { %s }.\n", name, ident(name), strings.Join(fields, "; ")))
+	return nil
+}
+
+func (t *tr) structField(name, field string) (Ty, bool) {
+	st := t.pkg.structs[name]
+	if st == nil {
+		return Ty{}, false
+	}
+	for _, f := range st.Fields.List {
+		for _, fn := range f.Names {
+			if fn.Name == field {
+				ty, err := t.typeOf(f.Type)
+				return ty, err == nil
+			}
+		}
+	}
+	return Ty{}, false
 }
 
 var reserved = map[string]bool{
@@ -290,15 +444,22 @@ func (t *tr) typeOf(e ast.Expr) (Ty, error) {
 		case "bool":
 			return Ty{k: kBool}, nil
 		case "byte", "uint8":
-			return Ty{kUint, 8}, nil
+			return Ty{k: kUint, bits: 8}, nil
 		case "uint16":
-			return Ty{kUint, 16}, nil
+			return Ty{k: kUint, bits: 16}, nil
 		case "uint32":
-			return Ty{kUint, 32}, nil
+			return Ty{k: kUint, bits: 32}, nil
 		case "uint64":
-			return Ty{kUint, 64}, nil
+			return Ty{k: kUint, bits: 64}, nil
 		case "error":
 			return Ty{k: kError}, nil
+		}
+		if t.pkg != nil {
+			if u, ok := t.pkg.named[x.Name]; ok {
+				ty, err := t.typeOf(u)
+				ty.name = x.Name
+				return ty, err
+			}
 		}
 	case *ast.ArrayType:
 		if x.Len == nil {
@@ -308,9 +469,20 @@ func (t *tr) typeOf(e ast.Expr) (Ty, error) {
 		}
 	case *ast.SelectorExpr:
 		if p, ok := x.X.(*ast.Ident); ok && p.Name == "os" && x.Sel.Name == "FileMode" {
-			return Ty{kUint, 32}, nil
+			return Ty{kUint, 32, "os.FileMode"}, nil
 		}
 	case *ast.StarExpr:
+		if id, ok := x.X.(*ast.Ident); ok && t.pkg != nil {
+			if id.Name == "Stat" && t.pkg.name == "types" {
+				return Ty{k: kStat}, nil
+			}
+			if _, ok := t.pkg.structs[id.Name]; ok {
+				if err := t.record(e, id.Name); err != nil {
+					return Ty{}, err
+				}
+				return Ty{k: kStruct, name: id.Name}, nil
+			}
+		}
 		if s, ok := x.X.(*ast.SelectorExpr); ok {
 			if p, ok := s.X.(*ast.Ident); ok {
 				if p.Name == "types" && s.Sel.Name == "Stat" {
@@ -427,11 +599,29 @@ func (t *tr) expr(e ast.Expr, ev *env) (val, error) {
 		if ty, ok := ev.lookup(x.Name); ok {
 			return val{code: ident(x.Name), ty: ty}, nil
 		}
-		if ce, ok := t.consts[x.Name]; ok {
-			// package-level constant of the same file: its defining expression is translated in place
-			return t.expr(ce, &env{scopes: [][]variable{nil}})
+		if x.Name == "iota" && t.iota >= 0 {
+			return val{ty: Ty{k: kUntyped}, c: constant.MakeInt64(int64(t.iota))}, nil
 		}
-		return val{}, bad(e, "identifier %s is neither a local variable nor a constant of this file", x.Name)
+		if cd, ok := t.pkg.consts[x.Name]; ok {
+			// package-level constant: its defining expression is translated in place
+			saved := t.iota
+			t.iota = cd.iota
+			v, err := t.expr(cd.expr, &env{scopes: [][]variable{nil}})
+			t.iota = saved
+			if err != nil || cd.typ == nil {
+				return v, err
+			}
+			ty, err := t.typeOf(cd.typ)
+			if err != nil {
+				return val{}, err
+			}
+			code, err := t.conv(e, v, ty)
+			if err != nil {
+				return val{}, err
+			}
+			return val{code: code, ty: ty, c: v.c}, nil
+		}
+		return val{}, bad(e, "identifier %s is neither a local variable nor a constant of the package", x.Name)
 	case *ast.SelectorExpr:
 		name := t.selName(x)
 		if p, ok := x.X.(*ast.Ident); ok {
@@ -452,6 +642,11 @@ func (t *tr) expr(e ast.Expr, ev *env) (val, error) {
 		if r.ty.k == kStat {
 			if f, ok := statFields[x.Sel.Name]; ok {
 				return val{code: "(" + f.coq + " " + r.code + ")", ty: f.ty}, nil
+			}
+		}
+		if r.ty.k == kStruct {
+			if fty, ok := t.structField(r.ty.name, x.Sel.Name); ok {
+				return val{code: "(" + r.ty.name + "_" + x.Sel.Name + " " + r.code + ")", ty: fty}, nil
 			}
 		}
 		return val{}, bad(e, "field %s of %s outside the subset", x.Sel.Name, r.ty)
@@ -496,7 +691,7 @@ func (t *tr) expr(e ast.Expr, ev *env) (val, error) {
 		if err != nil {
 			return val{}, err
 		}
-		return val{code: "(Prims.idx " + s.code + " " + ic + ")", ty: Ty{kUint, 8}}, nil
+		return val{code: "(Prims.idx " + s.code + " " + ic + ")", ty: Ty{k: kUint, bits: 8}}, nil
 	case *ast.SliceExpr:
 		if x.Slice3 {
 			return val{}, bad(e, "3-index slice")
@@ -694,6 +889,20 @@ func (t *tr) binary(x *ast.BinaryExpr, ev *env) (val, error) {
 		case token.NEQ:
 			return val{code: "(negb (N.eqb " + ac + " " + bc + "))", ty: boolT}, nil
 		}
+	case kError:
+		// only comparison with nil
+		if a.ty.k == kNil || b.ty.k == kNil {
+			e := ac
+			if a.ty.k == kNil {
+				e = bc
+			}
+			switch op {
+			case token.EQL:
+				return val{code: "(Prims.err_is_nil " + e + ")", ty: boolT}, nil
+			case token.NEQ:
+				return val{code: "(negb (Prims.err_is_nil " + e + "))", ty: boolT}, nil
+			}
+		}
 	case kString:
 		switch op {
 		case token.ADD:
@@ -732,6 +941,45 @@ func (t *tr) isOptCall(e ast.Expr, ev *env) bool {
 	return ok && f.opt
 }
 
+// callMulti: a call of a translated or external function with several results; code is a tuple
+func (t *tr) callMulti(x *ast.CallExpr, ev *env) (string, []Ty, bool, error) {
+	id, ok := x.Fun.(*ast.Ident)
+	if !ok {
+		return "", nil, false, nil
+	}
+	if _, isVar := ev.lookup(id.Name); isVar {
+		return "", nil, false, nil
+	}
+	var params, res []Ty
+	name := ""
+	if ex, ok := t.externs[id.Name]; ok {
+		params, res, name = ex.params, ex.res, ident(id.Name)
+	} else if sig, ok := t.funcs[id.Name]; ok && !sig.opt {
+		params, res, name = sig.params, sig.res, sig.name
+	} else {
+		return "", nil, false, nil
+	}
+	if len(res) < 2 {
+		return "", nil, false, nil
+	}
+	if len(params) != len(x.Args) || x.Ellipsis != token.NoPos {
+		return "", nil, false, bad(x, "argument count")
+	}
+	code := "(" + name
+	for i, a := range x.Args {
+		v, err := t.expr(a, ev)
+		if err != nil {
+			return "", nil, false, err
+		}
+		c, err := t.conv(a, v, params[i])
+		if err != nil {
+			return "", nil, false, err
+		}
+		code += " " + c
+	}
+	return code + ")", res, true, nil
+}
+
 func (t *tr) call(x *ast.CallExpr, ev *env, allowOpt bool) (val, error) {
 	if x.Ellipsis != token.NoPos {
 		return val{}, bad(x, "variadic call")
@@ -758,6 +1006,16 @@ func (t *tr) call(x *ast.CallExpr, ev *env, allowOpt bool) (val, error) {
 	case *ast.Ident:
 		if _, isVar := ev.lookup(f.Name); isVar {
 			return val{}, bad(x, "call of a function value")
+		}
+		if ex, ok := t.externs[f.Name]; ok {
+			if len(ex.res) != 1 {
+				return val{}, bad(x, "call of multi-result function %s inside an expression", f.Name)
+			}
+			a, err := args(ex.params)
+			if err != nil {
+				return val{}, err
+			}
+			return val{code: "(" + ident(f.Name) + a + ")", ty: ex.res[0]}, nil
 		}
 		if sig, ok := t.funcs[f.Name]; ok {
 			if sig.opt && !allowOpt {
@@ -835,6 +1093,15 @@ func (t *tr) call(x *ast.CallExpr, ev *env, allowOpt bool) (val, error) {
 		name := t.selName(f)
 		if p, ok := f.X.(*ast.Ident); ok {
 			if _, isVar := ev.lookup(p.Name); !isVar {
+				if name == "os.FileMode" && len(x.Args) == 1 {
+					v, err := t.expr(x.Args[0], ev)
+					if err != nil {
+						return val{}, err
+					}
+					r, err := t.convert(x, v, Ty{k: kUint, bits: 32})
+					r.ty.name = "os.FileMode"
+					return r, err
+				}
 				sf, ok := stdFuncs[name]
 				if !ok {
 					return val{}, bad(x, "%s is not in the table of standard-library meanings", name)
@@ -849,6 +1116,18 @@ func (t *tr) call(x *ast.CallExpr, ev *env, allowOpt bool) (val, error) {
 		r, err := t.expr(f.X, ev)
 		if err != nil {
 			return val{}, err
+		}
+		if r.ty.k == kUint && r.ty.name == "os.FileMode" && f.Sel.Name == "IsDir" && len(x.Args) == 0 {
+			return val{code: "(Prims.FileMode_IsDir " + r.code + ")", ty: Ty{k: kBool}}, nil
+		}
+		if r.ty.k == kStat {
+			if sig, ok := t.funcs["Stat."+f.Sel.Name]; ok && len(sig.res) == 1 && !sig.opt && len(sig.params) == 1+len(x.Args) {
+				a, err := args(sig.params[1:])
+				if err != nil {
+					return val{}, err
+				}
+				return val{code: "(" + sig.name + " " + r.code + a + ")", ty: sig.res[0]}, nil
+			}
 		}
 		if r.ty.k == kPattern && f.Sel.Name == "String" && len(x.Args) == 0 {
 			return val{code: "(Prims.Pattern_String " + r.code + ")", ty: Ty{k: kString}}, nil
@@ -970,8 +1249,24 @@ func (t *tr) stmts(list []ast.Stmt, c *ctx, ev *env, d int) (string, error) {
 		}
 		return "", bad(x, "label on a non-loop statement")
 	case *ast.ReturnStmt:
+		if len(x.Results) == 1 && len(t.cur.res) > 1 {
+			if ce, ok := x.Results[0].(*ast.CallExpr); ok {
+				code, res, ok, err := t.callMulti(ce, ev)
+				if err != nil {
+					return "", err
+				}
+				if ok && len(res) == len(t.cur.res) {
+					for i := range res {
+						if !res[i].eq(t.cur.res[i]) {
+							return "", bad(x, "type mismatch in return")
+						}
+					}
+					return ind(d) + c.ret(code), nil
+				}
+			}
+		}
 		if len(x.Results) != len(t.cur.res) {
-			return "", bad(x, "return with %d values in a function with %d results (named results are outside the subset)", len(x.Results), len(t.cur.res))
+			return "", bad(x, "return with %d values in a function with %d results (a bare return of named results is outside the subset)", len(x.Results), len(t.cur.res))
 		}
 		if len(x.Results) == 1 && t.isOptCall(x.Results[0], ev) {
 			v, err := t.call(x.Results[0].(*ast.CallExpr), ev, true)
@@ -1041,6 +1336,42 @@ func (t *tr) stmts(list []ast.Stmt, c *ctx, ev *env, d int) (string, error) {
 		be := &ast.BinaryExpr{X: id, OpPos: x.TokPos, Op: op, Y: &ast.BasicLit{ValuePos: x.TokPos, Kind: token.INT, Value: "1"}}
 		return t.assign(x, id, be, false, rest, c, ev, d)
 	case *ast.AssignStmt:
+		if len(x.Lhs) > 1 && len(x.Rhs) == 1 && (x.Tok == token.DEFINE || x.Tok == token.ASSIGN) {
+			if ce, ok := x.Rhs[0].(*ast.CallExpr); ok {
+				code, res, ok, err := t.callMulti(ce, ev)
+				if err != nil {
+					return "", err
+				}
+				if ok && len(res) == len(x.Lhs) {
+					var pats []string
+					for i, l := range x.Lhs {
+						id, ok := l.(*ast.Ident)
+						if !ok {
+							return "", bad(x, "assignment to a non-variable (memory writes are outside the subset)")
+						}
+						if id.Name == "_" {
+							pats = append(pats, "_")
+							continue
+						}
+						if old, ok := ev.lookup(id.Name); ok && (x.Tok == token.ASSIGN || inTop(ev, id.Name)) {
+							if !old.eq(res[i]) {
+								return "", bad(x, "type mismatch in assignment to %s", id.Name)
+							}
+						} else if x.Tok == token.ASSIGN {
+							return "", bad(x, "assignment to %s, which is not a local variable", id.Name)
+						} else if err := ev.declare(x, id.Name, res[i]); err != nil {
+							return "", err
+						}
+						pats = append(pats, ident(id.Name))
+					}
+					r, err := t.stmts(rest, c, ev, d)
+					if err != nil {
+						return "", err
+					}
+					return fmt.Sprintf("%slet '(%s) := %s in\n%s", ind(d), strings.Join(pats, ", "), code, r), nil
+				}
+			}
+		}
 		if len(x.Lhs) != 1 || len(x.Rhs) != 1 {
 			return "", bad(x, "multiple assignment outside the subset")
 		}
@@ -1619,8 +1950,8 @@ func (t *tr) forLoop(x *ast.ForStmt, label string, rest []ast.Stmt, c *ctx, ev *
 	if err != nil {
 		return "", err
 	}
-	fix := fmt.Sprintf("(* loop at %s.  Fuel %s: %s. *)\nFixpoint %s (fuel__ : nat)%s {struct fuel__} : Prims.ctl %s %s :=\n  match fuel__ with\n  | O => Prims.OutOfFuel\n  | Datatypes.S fuel1__ =>\n    if %s then\n%s\n    else Prims.Done %s\n  end.\n",
-		t.pos(x), fuel, why, name, params, rty, sty, cv.code, body, spat)
+	fix := fmt.Sprintf("(* loop %s.  Fuel %s: %s. *)\nFixpoint %s (fuel__ : nat)%s {struct fuel__} : Prims.ctl %s %s :=\n  match fuel__ with\n  | O => Prims.OutOfFuel\n  | Datatypes.S fuel1__ =>\n    if %s then\n%s\n    else Prims.Done %s\n  end.\n",
+		name, fuel, why, name, params, rty, sty, cv.code, body, spat)
 	t.aux = append(t.aux, fix)
 	return t.loopCall(name+" "+fuel+callArgs, spat, usesNL, rest, c, ev, d)
 }
@@ -1707,8 +2038,8 @@ func (t *tr) rangeLoop(x *ast.RangeStmt, label string, rest []ast.Stmt, c *ctx, 
 	if vid.Name == "_" {
 		vname = "_"
 	}
-	fix := fmt.Sprintf("(* range loop at %s: structural recursion on the slice (evaluated once), no fuel needed. *)\nFixpoint %s%s (l__ : list (list N))%s {struct l__} : Prims.ctl %s %s :=\n  match l__ with\n  | nil => Prims.Done %s\n  | %s :: l1__ =>\n%s\n  end.\n",
-		t.pos(x), name, fparams, sparams, rty, sty, spat, vname, body)
+	fix := fmt.Sprintf("(* range loop %s: structural recursion on the slice (evaluated once), no fuel needed. *)\nFixpoint %s%s (l__ : list (list N))%s {struct l__} : Prims.ctl %s %s :=\n  match l__ with\n  | nil => Prims.Done %s\n  | %s :: l1__ =>\n%s\n  end.\n",
+		name, name, fparams, sparams, rty, sty, spat, vname, body)
 	t.aux = append(t.aux, fix)
 	return t.loopCall(name+fargs+" "+rv.code+sargs, spat, usesNL, rest, c, ev, d)
 }
@@ -1733,21 +2064,67 @@ func hasLoopOrOptCall(t *tr, fd *ast.FuncDecl) bool {
 	return found
 }
 
-func (t *tr) function(fd *ast.FuncDecl) (string, error) {
-	if fd.Recv != nil {
-		return "", bad(fd, "method")
+func zeroOf(ty Ty) (string, bool) {
+	switch ty.k {
+	case kInt:
+		return "0%Z", true
+	case kUint, kI64:
+		return "0%N", true
+	case kBool:
+		return "false", true
+	case kString:
+		return "(@nil N)", true
+	case kStrSlice:
+		return "(@nil (list N))", true
+	case kError:
+		return "(@None (list N))", true
 	}
+	return "", false
+}
+
+func (t *tr) function(fd *ast.FuncDecl, e entry) (string, error) {
 	if fd.Type.TypeParams != nil {
 		return "", bad(fd, "generic function")
 	}
+	_ = e
 	if fd.Body == nil {
 		return "", bad(fd, "no body")
 	}
 	sig := &funcSig{name: ident(fd.Name.Name)}
+	key := fd.Name.Name
+	if e.recv != "" {
+		sig.name = ident(e.recv + "_" + fd.Name.Name)
+		key = e.recv + "." + fd.Name.Name
+	}
 	ev := &env{}
 	ev.push()
 	params := ""
-	for _, f := range fd.Type.Params.List {
+	t.externs = e.externs
+	var exNames []string
+	for n := range e.externs {
+		exNames = append(exNames, n)
+	}
+	sort.Strings(exNames)
+	for _, n := range exNames {
+		ex := e.externs[n]
+		var ts []string
+		for _, p := range ex.params {
+			ts = append(ts, paren(p.coq()))
+		}
+		var rs []string
+		for _, r := range ex.res {
+			rs = append(rs, paren(r.coq()))
+		}
+		params += fmt.Sprintf(" (%s : %s -> %s)", ident(n), strings.Join(ts, " -> "), strings.Join(rs, " * "))
+	}
+	plist := fd.Type.Params.List
+	if fd.Recv != nil {
+		if len(fd.Recv.List) != 1 || len(fd.Recv.List[0].Names) != 1 {
+			return "", bad(fd, "receiver form")
+		}
+		plist = append(append([]*ast.Field(nil), fd.Recv.List...), plist...)
+	}
+	for _, f := range plist {
 		ty, err := t.typeOf(f.Type)
 		if err != nil {
 			return "", err
@@ -1774,10 +2151,31 @@ func (t *tr) function(fd *ast.FuncDecl) (string, error) {
 		if err != nil {
 			return "", err
 		}
-		if len(f.Names) > 0 {
-			return "", bad(f, "named results")
+		n := len(f.Names)
+		if n == 0 {
+			n = 1
 		}
-		sig.res = append(sig.res, ty)
+		for i := 0; i < n; i++ {
+			sig.res = append(sig.res, ty)
+		}
+	}
+	// named results are variables of the function's outermost scope, initialised to their zero value;
+	// every return must list its values (checked where the return is translated)
+	namedInit := ""
+	for _, f := range fd.Type.Results.List {
+		ty, _ := t.typeOf(f.Type)
+		for _, n := range f.Names {
+			z, ok := zeroOf(ty)
+			if !ok {
+				return "", bad(f, "named result of type %s", ty)
+			}
+			if err := ev.declare(n, n.Name, ty); err != nil {
+				return "", err
+			}
+			if n.Name != "_" {
+				namedInit += fmt.Sprintf("  let %s := %s in\n", ident(n.Name), z)
+			}
+		}
 	}
 	sig.opt = hasLoopOrOptCall(t, fd)
 	t.cur, t.goName, t.aux, t.nloop = sig, fd.Name.Name, nil, 0
@@ -1788,11 +2186,12 @@ func (t *tr) function(fd *ast.FuncDecl) (string, error) {
 		c.oof = "None"
 		rty = "option " + rty
 	}
-	ev.push()
+	// Go: parameters, results and the statements of the body share one scope
 	body, err := t.stmts(fd.Body.List, c, ev, 1)
 	if err != nil {
 		return "", err
 	}
+	body = namedInit + body
 	var b strings.Builder
 	for _, a := range t.aux {
 		b.WriteString(a + "\n")
@@ -1801,8 +2200,12 @@ func (t *tr) function(fd *ast.FuncDecl) (string, error) {
 	if sig.opt {
 		optNote = "  Contains loops: result in option, None = a loop ran out of its fuel."
 	}
-	fmt.Fprintf(&b, "(* %s, func %s.%s *)\nDefinition %s%s : %s :=\n%s.\n", t.pos(fd), fd.Name.Name, optNote, sig.name, params, rty, body)
-	t.funcs[fd.Name.Name] = sig
+	exNote := ""
+	if len(exNames) > 0 {
+		exNote = "  Parametric in the untranslated (I/O) function(s) " + strings.Join(exNames, ", ") + "."
+	}
+	fmt.Fprintf(&b, "(* %s, func %s.%s%s *)\nDefinition %s%s : %s :=\n%s.\n", e.file, key, optNote, exNote, sig.name, params, rty, body)
+	t.funcs[key] = sig
 	return b.String(), nil
 }
 
@@ -1812,61 +2215,75 @@ func main() {
 		os.Exit(2)
 	}
 	root := os.Args[1]
-	t := &tr{fset: token.NewFileSet(), funcs: map[string]*funcSig{}}
+	t := &tr{fset: token.NewFileSet(), funcs: map[string]*funcSig{}, pkgs: map[string]*pkgInfo{}, records: map[string]bool{}, iota: -1}
 	files := map[string]*ast.File{}
 	var out strings.Builder
 	out.WriteString("(* GENERATED by tools/go2coq from the Go sources on every run of ./check — do not edit.\n")
 	out.WriteString("   One Gallina definition per whitelisted pure function; Proofs/Src/<Fn>Eq.v proves it equal to the\n")
 	out.WriteString("   hand-written model.  Meaning of Prims.*: theories/Src/Prims.v (trusted). *)\n")
 	out.WriteString("From Coq Require Import List NArith ZArith Bool.\nFrom FS Require Src.Prims.\nFrom FS Require Model.Stat.\nImport ListNotations.\nLocal Open Scope list_scope.\n\n")
-	var names []string
 	for _, e := range whitelist {
-		names = append(names, e.name)
+		label := e.name
+		if e.recv != "" {
+			label = e.recv + "." + e.name
+		}
 		f, ok := files[e.file]
 		if !ok {
 			var err error
 			f, err = parser.ParseFile(t.fset, filepath.Join(root, e.file), nil, parser.SkipObjectResolution)
 			if err != nil {
-				fmt.Fprintf(&out, "(* UNTRANSLATABLE %s: cannot parse %s: %v *)\n\n", e.name, e.file, strings.ReplaceAll(err.Error(), "*)", "* )"))
+				fmt.Fprintf(&out, "(* UNTRANSLATABLE %s: cannot parse %s: %v *)\n\n", label, e.file, strings.ReplaceAll(err.Error(), "*)", "* )"))
 				continue
 			}
 			files[e.file] = f
 		}
 		var fd *ast.FuncDecl
 		for _, d := range f.Decls {
-			if x, ok := d.(*ast.FuncDecl); ok && x.Name.Name == e.name && x.Recv == nil {
+			x, ok := d.(*ast.FuncDecl)
+			if !ok || x.Name.Name != e.name {
+				continue
+			}
+			if e.recv == "" && x.Recv == nil {
 				fd = x
 			}
-		}
-		if fd == nil {
-			fmt.Fprintf(&out, "(* UNTRANSLATABLE %s: no such function at %s:0 *)\n\n", e.name, e.file)
-			continue
-		}
-		t.consts = map[string]ast.Expr{}
-		for _, d := range f.Decls {
-			if g, ok := d.(*ast.GenDecl); ok && g.Tok == token.CONST {
-				for _, sp := range g.Specs {
-					vs := sp.(*ast.ValueSpec)
-					if vs.Type == nil && len(vs.Names) == len(vs.Values) { // no iota groups, no typed constants
-						for i, n := range vs.Names {
-							t.consts[n.Name] = vs.Values[i]
-						}
+			if e.recv != "" && x.Recv != nil && len(x.Recv.List) == 1 {
+				rt := x.Recv.List[0].Type
+				if st, ok := rt.(*ast.StarExpr); ok {
+					if id, ok := st.X.(*ast.Ident); ok && id.Name == e.recv {
+						fd = x
 					}
 				}
 			}
 		}
-		code, err := t.function(fd)
+		if fd == nil {
+			fmt.Fprintf(&out, "(* UNTRANSLATABLE %s: no such function at %s:0 *)\n\n", label, e.file)
+			continue
+		}
+		t.pkg = t.scanPkg(filepath.Dir(filepath.Join(root, e.file)))
+		nrec := len(t.recordDefs)
+		code, err := t.function(fd, e)
 		if err != nil {
 			where := t.pos(fd)
 			if u, ok := err.(*untranslatable); ok && u.pos != token.NoPos {
 				p := t.fset.Position(u.pos)
 				where = fmt.Sprintf("%s:%d", filepath.Base(p.Filename), p.Line)
 			}
-			fmt.Fprintf(&out, "(* UNTRANSLATABLE %s: %s at %s *)\n\n", e.name, strings.ReplaceAll(err.Error(), "*)", "* )"), where)
+			fmt.Fprintf(&out, "(* UNTRANSLATABLE %s: %s at %s *)\n\n", label, strings.ReplaceAll(err.Error(), "*)", "* )"), where)
+			// records first needed by a function that is not emitted are not emitted either
+			for _, r := range t.recordDefs[nrec:] {
+				for n := range t.records {
+					if strings.Contains(r, "Record "+ident(n)+" ") {
+						delete(t.records, n)
+					}
+				}
+			}
+			t.recordDefs = t.recordDefs[:nrec]
 			continue
+		}
+		for _, r := range t.recordDefs[nrec:] {
+			out.WriteString(r + "\n")
 		}
 		out.WriteString(code + "\n")
 	}
-	sort.Strings(names)
 	fmt.Print(out.String())
 }
